@@ -295,7 +295,7 @@ impl<S: SemLike> Sut for SemSut<S> {
         let k = self.futs.k();
         let held: usize = self.rels.iter().map(|(a, _)| *a).sum();
         let total = self.s().permits() + held;
-        loop {
+        for _attempt in 0..400 {
             let f = 1 + rng.below(k);
             let w = variant_name(self.wk[rng.below(self.wk.len())]);
             let n = self.reqs[rng.below(self.reqs.len())];
@@ -348,5 +348,6 @@ impl<S: SemLike> Sut for SemSut<S> {
                 _ => return json!({"op": "permits"}),
             }
         }
+        json!({"op": "idle"})
     }
 }
